@@ -61,6 +61,19 @@ func gen(t *rapid.T) Case {
 			return Prio{DelayUs: rapid.SampledFrom([]int{0, 100, 500, 2000}).Draw(t, "pdelay"), HoldUs: rapid.SampledFrom([]int{0, 100, 1000}).Draw(t, "hold")}
 		}), 1, 3).Draw(t, "pseq"))
 	}
+	if rapid.IntRange(0, 39).Draw(t, "slowreaction") == 0 {
+		// every slot is held by a body that reacts to its cancellation very late, more invocations are queued, and
+		// a long prioritized task begins: whoever gets the freed slot must not start before that task is over
+		c.Invs = nil
+		for i := 0; i < c.Concurrency; i++ {
+			c.Invs = append(c.Invs, Inv{Bodies: []Body{{UntilCancel: true, ReactUs: 150000}, {RunUs: 50}}})
+		}
+		nq := rapid.IntRange(1, 2).Draw(t, "queued")
+		for i := 0; i < nq; i++ {
+			c.Invs = append(c.Invs, Inv{DelayUs: 2000, Bodies: []Body{{RunUs: rapid.SampledFrom([]int{50, 1000}).Draw(t, "qrun")}}})
+		}
+		c.Prios = [][]Prio{{{DelayUs: 6000, HoldUs: 250000}}}
+	}
 	return c
 }
 
@@ -109,6 +122,8 @@ func run(c Case, ev *pbt.Ev) error {
 		totalPrios  int
 		priosBegun  atomic.Int32
 		allBegun    = make(chan struct{})
+		startMu     sync.Mutex
+		startTimes  []time.Time // first statement of every body execution
 		lateCancel  atomic.Bool // a body that was running at a prioritized begin reacted late
 		prioWhileBg atomic.Bool
 		wg          sync.WaitGroup
@@ -163,6 +178,9 @@ func run(c Case, ev *pbt.Ev) error {
 					fail(pbt.Violf("self-overlap", "invocation %d: execution %d started while %d earlier execution(s) of the same task were still running", ii, k, n-1))
 				}
 				bodyStarts.Add(1)
+				startMu.Lock()
+				startTimes = append(startTimes, time.Now())
+				startMu.Unlock()
 				r := running.Add(1)
 				for {
 					mx := maxRunning.Load()
@@ -251,6 +269,31 @@ func run(c Case, ev *pbt.Ev) error {
 			if early < nDo {
 				return pbt.Violf("started-during-prioritized", "a background body was started at a moment when %d prioritized task(s) had begun but only %d had certainly finished more than the silence period (%v) earlier", nDo, early, silence)
 			}
+		}
+	}
+	// the same judged by when the bodies really started: a start decision that was taken before a prioritized task
+	// began is worthless if the body is only started much later (e.g. after waiting for a free slot).  The decision
+	// and the body's first statement are microseconds apart, scheduling hiccups aside: a prioritized task that was
+	// registered more than startSlack before a body's first statement and cannot have finished plus the silence
+	// period by then is a violation.
+	const startSlack = 60 * time.Millisecond
+	doneMu.Lock()
+	dones := append([]doneCall(nil), doneCalls...)
+	doneMu.Unlock()
+	for _, ts := range startTimes {
+		registered, maybeOver := 0, 0
+		for _, d := range doTimes {
+			if !d.After(ts.Add(-startSlack)) {
+				registered++
+			}
+		}
+		for _, d := range dones {
+			if !d.at.Add(silence).After(ts) {
+				maybeOver++
+			}
+		}
+		if registered > maybeOver {
+			return pbt.Violf("started-during-prioritized", "a background body executed its first statement when %d prioritized task(s) had been registered for more than %v but at most %d can have finished more than the silence period (%v) earlier", registered, startSlack, maybeOver, silence)
 		}
 	}
 	// every started body belongs to exactly one start decision that saw no prioritized work
